@@ -51,6 +51,8 @@ def build_harness(race=False):
     env = dict(GOENV)
     out = VH
     cmd = ["go", "build", "-tags", "verif", "-o", out, "."]
+    if os.environ.get("VERIF_COVER"):  # diagnostic only: statement coverage of /repo reached by the harness (GOCOVERDIR)
+        cmd[2:2] = ["-cover", "-coverpkg=github.com/ucan-wg/go-ucan/...,verif/harness"]
     if race:
         env["CGO_ENABLED"] = "1"
         out = VH + "_race"
